@@ -34,6 +34,28 @@ HIST = {
  "C16-c": "caught by the per-thread result digests (ThreadSanitizer reports nothing: all shared accesses are atomic)",
  "C18-c": "missed by C18 at first (needs > 2^21 pairs), reported by C05/C06 all along -> giant C histories (2.1-2.3 M pairs, runs of erased keys, bounded walks)",
  "C20-c": "missed at first (coordinates were always supplied as value_type) -> input ranges of a wider integer type",
+ "C16-d": "missed at first (erasures were isolated: no lookup walked over more than 64 tombstones) -> update rounds that insert, push down and erase contiguous blocks, readers aimed at them; the racy run also deadlocks ThreadSanitizer's runtime -> stall watchdog in the driver",
+ "C04-d": "reported through the level-size recurrence of the static_pgm run of C04 (and by C07)",
+ "C12-d": "reported as crashes of the mapped engine (the foreign pages unmapped by the destructor belong to the next container)",
+ "C09-d": "same edit as C02-f / C14-e (submitted independently three times)",
+ "C04-e": "missed at first (no single segment spanned 2^24 ranks) -> segmentation '#huge' configurations",
+ "C10-e": "missed by C10 at first (every queried object was the constructed one), reported by C19 and C17 all along -> object-lifecycle variation in all static engines",
+ "C11-e": "missed at first (ranges always came from a std::vector) -> deque and reverse-iterator sources",
+ "C13-e": "missed at first (every multidimensional epsilon was a power of two) -> non-power-of-two epsilons in all engines",
+ "C14-e": "missed at first (no point set >= 2^15 with an off-trend tail) -> big_far_tail family",
+ "C16-e": "missed at first (shared indexes had < 10^4 segments) -> '#big' shared indexes over gen_irregular_keys",
+ "C19-e": "missed at first (chains reached ~6*10^4 segments) -> chains over gen_irregular_keys (up to ~2*10^5 segments), copy construction inside the chain",
+ "C12-e": "every narrow-key case crashes or throws on reopen; crash restarts per shard are capped so that the check still ends within minutes",
+ "C05-e": "reported at once by the one instantiation with a floating mapped type",
+ "C01-f": "missed by C01 at first, reported by C03 all along -> big_gentle_curve cases (hulls beyond 2^16 vertices) for the eps >= 64 configurations",
+ "C03-f": "missed at first (the only > 2^16-vertex segment was the first of its array) -> gentle_curve_big_hull with an irregular prefix",
+ "C08-f": "missed at first -> Compressed '#segs' cases (>= 2^15 first-level segments, up to 20 threads, every key queried); statistical: ~1.5 % of the upper-level chunk cuts misroute a few hundred keys; reported on 3 of 3 seeds",
+ "C10-f": "missed by C10 at first, reported by C19's assignment chains -> threshold sweep (one long-lived object assigned indexes on both sides of 100000 high bits)",
+ "C13-f": "missed at first (points were always tuples of T) -> tuples of a narrower element type in a third of the cases",
+ "C14-f": "missed by C14 at first; decided exactly by C03 (residual oracle) and reported by C01 -> regular_far_clusters family and a larger C14 budget; statistical (4 of 4 seeds)",
+ "C16-f": "missed at first (no full long block: needs > 10^5 segment keys in one Elias-Fano bucket) -> dense burst of ~10^6 keys between two far outliers among the '#big' shared indexes",
+ "C02-f": "same edit as C09-d / C14-e",
+ "C18-f": "same family as C01-d / C02-d / C03-c (under-delivered OpenMP team), reached through the C wrapper",
  "C01-c": "the agent measured ~1 failing key in 10^8 random keys; the band-tight families (staircase, nested_staircase) produce hundreds of failing cases",
 }
 N = json.load(open('/verif/seeded/needs.json'))
